@@ -55,9 +55,11 @@ class Rec(object):
         self.notif = {}       # peer id -> 'up' | 'down'
         self.got = []         # (claimed peer id, payload)
         self.ro = []          # ids of connected read-only nodes as notified
+        self.ups = []         # every 'connected' notification, in order
 
     def on_conn(self, node):
         self.notif[node.id] = 'up'
+        self.ups.append(node.id)
 
     def on_disc(self, node):
         self.notif[node.id] = 'down'
@@ -151,6 +153,7 @@ class TransportModel(object):
         w.sent = []           # (sender idx, receiver idx, seq, send() result)
         w.exc = None
         w.members = {i: set(range(self.n)) - {i} for i in range(self.n + self.no)}
+        w.dropped = {}
         w.nodes = [self.make_node(w, i) for i in range(self.n + self.no)]
         w.gen = [0] * (self.n + self.no)
         if not self.cold:
@@ -174,7 +177,7 @@ class TransportModel(object):
                 parts.append((c.walk(nd.tr), c.walk(nd.rec.__dict__), nd.poller.key()))
             else:
                 parts.append(None)
-        return core.digest((parts, w.net.key(), sorted(w.used.items()), w.seq, w.sent, sorted((k, sorted(v)) for k, v in w.members.items()),
+        return core.digest((parts, w.net.key(), sorted(w.used.items()), w.seq, w.sent, sorted((k, sorted(v)) for k, v in w.members.items()), sorted(w.dropped.items()),
                             tuple(sorted((fd, getattr(s, 'owner', None)) for fd, s in w.net.sockets.items() if s.state != 'closed'))))
 
     def outcome(self, w):
@@ -354,9 +357,11 @@ class TransportModel(object):
                 if k == 'drop':
                     nd.tr.dropNode(TCPNode(addr(ev[2])))
                     w.members[ev[1]].discard(ev[2])
+                    w.dropped[(ev[1], ev[2])] = (len(nd.rec.got), len(nd.rec.ups))
                 else:
                     nd.tr.addNode(TCPNode(addr(ev[2])))
                     w.members[ev[1]].add(ev[2])
+                    w.dropped.pop((ev[1], ev[2]), None)
             elif k == 'outsider':
                 w.used['O'] += 1
                 CUR[0] = 'outsider'
@@ -401,6 +406,14 @@ class TransportModel(object):
             if not nd.alive:
                 continue
             seenp = set()
+            for (a, b), (ngot, nups) in w.dropped.items():
+                if a == nd.idx:
+                    if any(c == addr(b) for c, m in nd.rec.got[ngot:]):
+                        return core.Violation('C14 node %d delivered a message as coming from %s after it had removed that node' % (a, addr(b)),
+                                              sig='removed-node-delivered')
+                    if addr(b) in nd.rec.ups[nups:]:
+                        return core.Violation('C14 node %d reported %s connected after it had removed that node' % (a, addr(b)),
+                                              sig='removed-node-connected')
             for claimed, msg in nd.rec.got:
                 if not (isinstance(msg, tuple) and msg and msg[0] == 'probe'):
                     return 'C14 node %d received a non-probe message %r from %r' % (nd.idx, msg, claimed)
@@ -557,6 +570,7 @@ def jobs_for(tier):
         ('tr2:F2T1', dict(n=2, faults=2, times=1, probes=0, closing_every=4)),
         ('tr2:R1T1P1', dict(n=2, faults=0, times=1, probes=1, restarts=1, closing_every=4)),
         ('tr2:D1T1P1', dict(n=2, faults=0, times=1, probes=1, drops=1, closing_every=4)),
+        ('tr2-cold:D1P1', dict(n=2, faults=0, times=0, probes=1, drops=1, closing_every=4, cold=True)),
         ('tr2:O1P1', dict(n=2, faults=0, times=0, probes=1, outsiders=1, closing_every=4)),
         ('tr3:F1', dict(n=3, faults=1, times=0, probes=0, closing_every=6)),
         ('tr1+ro2:L2P1', dict(n=1, observers=2, faults=0, times=0, probes=1, ro_leaves=2, closing_every=2)),
